@@ -15,14 +15,14 @@ REGION = ("Region-level model (lean/Mercure/Model/Sys.lean): threads with progra
 
 CLAIMED = {
  "C06": dict(
-   text="Theorems: (operation level) the stored history is exactly the sequence of accepted updates — one total order — after any history; everything on a stream was enqueued for that connection; (obligation against regenerated flags) on both transports the whole fan-out of an update runs under the exclusive transport lock. The region-level stream theorems (FIFO; enq is a gap-free prefix of the filtered accepted order under every schedule, equal to it at quiescence; local transport: exactly the matching updates that entered fan-out after registration) are stated in lean/Mercure/Lemmas/SysStream.lean; those proved so far are listed in DESIGN.md §15, the others are covered by the controlled-schedule correspondence with oracles 'no duplicate / contiguous run of the history / nothing missed by a connected subscriber at quiescence' on the implementation alone.",
-   note=TB + REGION + "PARTIAL where DESIGN.md §15 says so (region-level exactly-once/order invariant).",
-   technique="Lean 4 proof (history invariant; region-level invariants in progress) + regenerated-flag obligation + controlled-schedule acceptor correspondence",
+   text="Theorems over every schedule of the region-level model (any number of concurrent publishers, registrations with or without history, disconnections, removals, consumers, Close): FIFO (received ++ buffered = sent); Bolt: the store is the accepted sequence with sequence numbers 1..n (one total order); what a subscriber has been sent is always a gap-free prefix of (what it is owed from the history, then every update accepted after it was indexed) filtered to what it matches — exactly once, in that order — and all of it at quiescence if it stayed connected; local transport: exactly the matching updates that entered fan-out after it was indexed, in the one fan-out order, all of them at quiescence; nothing before registration. Operation level: the stored history is the accepted order after any history of handler operations. Obligation against regenerated flags: the whole fan-out runs under the exclusive transport lock on both transports. Tie: controlled schedules (acceptor mode; thorough: every schedule with <= 2 preemptions of 17 small configurations) with oracles 'no duplicate / contiguous run of the history / nothing missed at quiescence' on the implementation alone; hub histories through the HTTP handlers.",
+   note=TB + REGION + "Stated for retention size 0 at region level (with retention the history part is what is still stored: C10). 'Keeps up' = no overflow: an overflowing subscriber gets a prefix (C13).",
+   technique="Lean 4 proof (inductive invariants over all schedules of the region-level model, 3200 lines) + regenerated-flag obligation + controlled-schedule acceptor correspondence",
    design="§8 C06, §15"),
  "C07": dict(
-   text="Theorems: a reconnection with the id of a retained update replays exactly the accepted updates that follow it (any retention size and cleanup coin sequence, unique ids); 'earliest' replays the whole retained history; a restart keeps the stored history; obligation against regenerated flags: the history scan stops before an entry stored after the registration and the sequence is reloaded on open; witness theorems: the duplicate [u2,u2] on the code as found (F2/F3) and the same schedule giving [u2] on the repaired code. Region-level 'gap-free prefix of the ideal sequence under every schedule' (bolt_stream_prefix_of_ideal / bolt_stream_complete): see DESIGN.md §15 for what is proved; otherwise covered by junction-targeting controlled schedules (publish placed between registration, history scan and go-live, with/without restart, buffers of 2-3 and 1000) with oracles on the implementation alone.",
-   note=TB + REGION + "PARTIAL where DESIGN.md §15 says so (region-level junction invariant).",
-   technique="Lean 4 proof (negotiation + retention by induction; witnesses by kernel evaluation) + regenerated-flag obligation + controlled-schedule acceptor correspondence",
+   text="Theorems: (region level, every schedule, publishes placed anywhere relative to registration / history scan / go-live, disconnections, overflow, Close) the sequence a reconnecting subscriber has been sent is a gap-free prefix of its ideal sequence — the stored updates following the requested id (all for 'earliest'), then everything accepted after it was indexed, those it matches, each once, in history order — and exactly that sequence at quiescence if still connected; (operation level) a reconnection with the id of a retained update replays exactly the accepted updates that follow it for every retention size and cleanup coin sequence; a restart keeps the history; obligation against regenerated flags: the scan stops before an entry stored after registration, the sequence is reloaded on open; witness theorems: [u2,u2] on the code as found (F2/F3), [u2] for the same schedule on the repaired code. Tie: junction-targeting controlled schedules (with/without restart, buffers 1-3 and 1000) and hub histories with replays larger than the buffer.",
+   note=TB + REGION + "Region level stated for retention size 0; restart is a separate phase (the restarted transport reloads its sequence: flag lastSeqOnOpen, theorem C09.crash_restart_keeps_committed).",
+   technique="Lean 4 proof (inductive invariants over all schedules; negotiation and retention by induction; witnesses by kernel evaluation) + regenerated-flag obligation + controlled-schedule acceptor correspondence",
    design="§8 C07, §15"),
  "C09": dict(
    text="Theorems over every schedule of the region-level model (Bolt): whatever was handed to a subscriber had been persisted before; a Dispatch that returned without error had persisted its update; the store is the accepted sequence minus a discarded prefix with every update at the position it was given (positions never change); nothing is lost without retention, the last `size` are stored with it; a crash in ANY state followed by a restart keeps the committed store, its sequence and positions, reports the last stored id and reloads the sequence. Tie: the instrumented transport in a child process SIGKILLs itself at every synchronisation point inside and around every publish (retention on/off); the parent reopens the file (bbolt and NewBoltTransport) and compares with the model's crash+restart; oracles on the file alone.",
